@@ -44,6 +44,7 @@ fn c18_to_single_object() {
 	std::mem::forget(r);
 	std::mem::forget(config);
 	std::mem::forget(schema);
+	kani::cover!(true, "end of harness reached");
 }
 
 // @harness props=C18,C11 tier=quick timeout=1200
@@ -92,6 +93,7 @@ fn c18_from_single_object() {
 	std::mem::forget(a);
 	std::mem::forget(b);
 	std::mem::forget(schema);
+	kani::cover!(true, "end of harness reached");
 }
 
 // @harness props=C18,C11 tier=quick timeout=1200
@@ -129,4 +131,5 @@ fn c18_from_single_object_null() {
 	std::mem::forget(a);
 	std::mem::forget(b);
 	std::mem::forget(schema);
+	kani::cover!(true, "end of harness reached");
 }
